@@ -182,7 +182,9 @@ def _run(ch: Choices, focus: str = "C11", params: Optional[dict] = None) -> dict
         listeners[stream.w] = L
         stream.listener = L
         c0 = CLOCK.count
-        CLOCK.set_budget(WORKER_BUDGET)
+        from sim.families.e1_engine import step_budget
+
+        CLOCK.set_budget(step_budget(sub_models[stream.w], {"cons": int(clone.consistency_alg_idx)}))
         try:
             with seams.attach(L):
                 getattr(clone, method)(*args, **kwargs)
@@ -244,8 +246,8 @@ def _run(ch: Choices, focus: str = "C11", params: Optional[dict] = None) -> dict
             worker_failed = True
             if isinstance(st.error, StepBudgetExceeded):
                 viol("C12" if use_split else "C04", "worker-does-not-terminate",
-                     ctx + f"worker {st.w} exceeded {WORKER_BUDGET} simulated steps ({st.error})")
-                viol("C04", "step-budget", ctx + f"worker {st.w} exceeded {WORKER_BUDGET} simulated steps ({st.error})")
+                     ctx + f"worker {st.w} exceeded its budget of simulated steps ({st.error})")
+                viol("C04", "step-budget", ctx + f"worker {st.w} exceeded its budget of simulated steps ({st.error})")
             else:
                 e = st.error
                 msg = ctx + f"worker {st.w} raised {type(e).__name__}: {e} at {where_of(e)}"
